@@ -143,6 +143,8 @@ def _check_roundtrip(c, rng, tmp):
                 if [str(x) for x in b] != [str(x) for x in a]:
                     return {"what": "text value changed", "column": col}
             else:
+                if not pd.api.types.is_numeric_dtype(g[col]):
+                    return {"what": "numeric column read back as text", "column": col, "got": [repr(x) for x in b[:3]]}
                 if not np.allclose(np.asarray(b, float), np.round(np.asarray(a, float), 6), atol=1e-9, rtol=0):
                     return {"what": "numeric value differs after rounding to 6 decimals", "column": col, "got": b[:3].tolist(), "expected": np.round(a, 6)[:3].tolist()}
     return None
@@ -177,7 +179,7 @@ def _check_text(c, rng, tmp):
         for r in range(nr):
             cells = []
             for j, kd in enumerate(kinds):
-                cells.append(str(int(rng.integers(-50, 50))) if kd == "int" else (f"{rng.normal():.5f}" if kd == "float" else tcols[j][r]))
+                cells.append(str(int(rng.integers(-50, 50))) if kd == "int" else ((f"{rng.normal():.5f}" if rng.random() < 0.8 else str(rng.choice(["5e-05", "-3.2E-06", "1.5e+16", "2E5", ".5", "-.25e-3"]))) if kd == "float" else tcols[j][r]))
             rows.append(cells)
             lines.append((ws() if rng.random() < 0.3 else "") + ws().join(cells) + (ws() if rng.random() < 0.3 else ""))
         lines.append("")
